@@ -593,6 +593,16 @@ func (w *World) buildPkg(p *Pkg) error {
 				withArgs = append(withArgs, localVar{nm, anyT})
 			}
 		}
+		// ... and the receiver of a method call: callrecv
+		hasRecv := false
+		for _, lv := range withArgs {
+			if lv.Name == "callrecv" {
+				hasRecv = true
+			}
+		}
+		if !hasRecv {
+			withArgs = append(withArgs, localVar{"callrecv", anyT})
+		}
 		for _, ac := range fc.AtCalls {
 			emit(ac.Clause, withArgs)
 		}
